@@ -9,6 +9,7 @@ import (
 	"encoding/hex"
 	"fmt"
 	"go/types"
+	"strings"
 
 	"golang.org/x/tools/go/ssa"
 )
@@ -104,14 +105,43 @@ func (w *World) split(t *Term) []*Term {
 }
 
 // ---- curve25519 model: pub(a) = UF; dlog(pub(a)) = a instantiated; dh symmetric by construction
+// keyTable: byte-term ids of a value produced by the model -> the term it stands for,
+// so that the algebra (ECDH symmetry, elligator inverse) is applied syntactically
+// and the solver never has to prove it.
+func (w *World) keyTable(name string) map[string]*Term {
+	if v, ok := w.ext["keytab:"+name]; ok {
+		return v.(map[string]*Term)
+	}
+	m := map[string]*Term{}
+	w.ext["keytab:"+name] = m
+	return m
+}
+
+func idsKey(bs []*Term) string {
+	var sb strings.Builder
+	for _, b := range bs {
+		fmt.Fprintf(&sb, "%d,", b.id)
+	}
+	return sb.String()
+}
+
 func (w *World) x25519Pub(priv *Term) *Term {
 	p := w.tt.UF("x25519_pub", 256, priv)
+	w.keyTable("pub2priv")[idsKey(w.split(p))] = priv
 	w.assumeNoCheck(w.tt.Eq(w.tt.UF("x25519_dlog", 256, p), priv))
 	w.assumeNoCheck(w.tt.Not(w.tt.UF("x25519_loworder", 0, p)))
 	return p
 }
 
 func (w *World) x25519DH(scalar, point *Term) *Term {
+	if other, ok := w.keyTable("pub2priv")[idsKey(w.split(point))]; ok {
+		// a public key the model produced: dh(a, pub(b)) = dh(b, pub(a)) by construction
+		lo, hi := scalar, other
+		if lo.id > hi.id {
+			lo, hi = hi, lo
+		}
+		return w.tt.UF("x25519_dh", 256, lo, hi)
+	}
 	d := w.tt.UF("x25519_dlog", 256, point)
 	lt := w.tt.Cmp(OpULt, scalar, d)
 	lo := w.tt.Ite(lt, scalar, d)
@@ -273,8 +303,9 @@ func init() {
 		if cb, ok := w.concBytes(pt); ok && cb[0] == 9 && allZero(cb[1:]) {
 			return Tuple{w.byteSlice(w.split(w.x25519Pub(s))), w.nilError()}
 		}
+		_, knownPub := w.keyTable("pub2priv")[idsKey(pt)]
 		low := w.tt.UF("x25519_loworder", 0, p)
-		if w.decideBool(low, "X25519 low order point") {
+		if !knownPub && w.decideBool(low, "X25519 low order point") {
 			return Tuple{[]Value(nil), w.mkError("bad input point: low order point")}
 		}
 		return Tuple{w.byteSlice(w.split(w.x25519DH(s, p))), w.nilError()}
@@ -313,6 +344,7 @@ func init() {
 		rb[31] = w.tt.Bin(OpAnd, rb[31], w.tt.BV(8, 0x3f))
 		rr := cat(rb, w.tt)
 		w.assumeNoCheck(w.tt.Eq(w.tt.UF("elligator_rep2pub", 256, rr), p))
+		w.keyTable("rep2pub")[idsKey(rb)] = p
 		for i, b := range w.split(p) {
 			w.store(&pub[i], b)
 		}
@@ -324,6 +356,9 @@ func init() {
 	reg(ex+".RepresentativeToPublicKey", func(w *World, t *Thread, fr *frame, fn *ssa.Function, args []Value) Value {
 		pub, rep := arrCell(args[0].(*Value)), arrCell(args[1].(*Value))
 		p := w.tt.UF("elligator_rep2pub", 256, cat(w.arrTerms(rep), w.tt))
+		if kp, ok := w.keyTable("rep2pub")[idsKey(w.arrTerms(rep))]; ok {
+			p = kp
+		}
 		for i, b := range w.split(p) {
 			w.store(&pub[i], b)
 		}
@@ -428,7 +463,7 @@ func init() {
 			if v, ok := w.ext["fixrandom"]; ok {
 				w.store(&b[i], v.(*Term))
 			} else {
-				w.store(&b[i], w.tt.Fresh("crand", 8))
+				w.store(&b[i], w.cryptoRandByte())
 			}
 		}
 		return Tuple{w.tt.BV(64, uint64(len(b))), w.nilError()}
@@ -479,4 +514,15 @@ func (w *World) fixRandReader() {
 	cell := new(Value)
 	*cell = w.zero(t)
 	*cellp = Iface{t: types.NewPointer(t), v: cell}
+}
+
+// cryptoRandByte: the next byte of crypto/rand - an arbitrary value (an
+// uninterpreted function of a draw counter), classified as random-oracle output.
+func (w *World) cryptoRandByte() *Term {
+	n := 0
+	if v, ok := w.ext["crandctr"]; ok {
+		n = v.(int)
+	}
+	w.ext["crandctr"] = n + 1
+	return w.tt.UF("crand", 8, w.tt.BV(32, uint64(n)))
 }
